@@ -9,6 +9,15 @@ CHECKS = {
                 "exit the reported length is 0 and every data-dependent output write is followed by a constant fill. This decides the "
                 "control/data-flow clauses of C02, not the MAC arithmetic (that a changed bit changes the tag).",
     },
+    "C06": {
+        "engine": "PathAI (E1) + call-graph effects (E2)",
+        "technique": "path-sensitive checklist analysis of the verifier + call-graph reachability / global-effect analysis of signing",
+        "text": "Static, for all inputs: the Ed25519 verifier can return 0 only on paths where S is canonical, A is canonical, decodes and is not "
+                "of small order, R decodes and is not of small order, and the result is the small-order test of p3_sub(R, [h]A+[S]B) with "
+                "h = SHA-512(R,A,M) reduced; all public verify/open wrappers inherit it and zero their outputs on failure; signing and seeded "
+                "key generation reach no randomness/time source and no mutable global (deterministic). RFC 8032 values and group/scalar "
+                "arithmetic are not decided.",
+    },
     "C07": {
         "engine": "PathAI (E1) + dependence (E6)",
         "technique": "path-sensitive checklist analysis + data-dependence slice of predicate results on point coordinates",
